@@ -39,7 +39,19 @@ def oracle_layer_grad(ck, order, biort, qshift, b, colour, x, zero_input=False, 
                 g[:, :n_low] = 0
             elif variant == 'cotangent on one channel only':
                 k = ck.rng.randrange(z.shape[1]); keep = g[:, k].clone(); g.zero_(); g[:, k] = keep
-            (gx,) = torch.autograd.grad([z], xt, [g])
+            # several pull-backs through ONE recorded graph (Jacobian rows, two losses, gradcheck): each of them is J^T g
+            (gx,) = torch.autograd.grad([z], xt, [g], retain_graph=True)
+            g_b = T(ck.nprng.standard_normal(tuple(z.shape)))
+            (gx_b,) = torch.autograd.grad([z], xt, [g_b], retain_graph=True)
+            (gx_again,) = torch.autograd.grad([z], xt, [g])
+            sc_ = max(1.0, float(gx.abs().max()))
+            if not float((gx_again - gx).abs().max()) <= 1e-10 * sc_:
+                ck.fail(desc + ' [%s]: the third pull-back through one retained graph differs from the first with the same cotangent by %.3g' % (variant, float((gx_again - gx).abs().max())), replay); return 'diff'
+            with torch.enable_grad():
+                z_f = mod(xt)
+            (gx_b_fresh,) = torch.autograd.grad([z_f], xt, [g_b])
+            if not float((gx_b - gx_b_fresh).abs().max()) <= 1e-10 * max(1.0, float(gx_b_fresh.abs().max())):
+                ck.fail(desc + ' [%s]: the second pull-back through one retained graph differs from the same pull-back through a fresh graph by %.3g' % (variant, float((gx_b - gx_b_fresh).abs().max())), replay); return 'diff'
         except Exception as e:
             ck.fail(desc + ' [%s]: raises %s: %s' % (variant, type(e).__name__, str(e)[:100]), replay); return 'raise'
         if not torch.isfinite(gx).all():
